@@ -349,3 +349,97 @@ Proof.
   unfold dgram_buffer_gen, len. rewrite firstn_length, app_length, repeat_length.
   rewrite Nat.min_l by lia. apply N2Nat.id.
 Qed.
+
+(* ---- the cookies middleware's own rejections -------------------------------------- *)
+
+Lemma cookie_own_answer_len echo eq rq k :
+  mlen (cookie_own_answer_gen echo eq rq k) =
+  if echo then mlen (error_response_gen eq rq (match k with CkMalformed => rc_formerr | CkDeniedNoCookie => rc_refused end))
+  else 12.
+Proof.
+  unfold cookie_own_answer_gen. destruct k, echo; cbv zeta; rewrite ?mlen_spec; reflexivity.
+Qed.
+
+Lemma cookie_own_answer_qs echo eq rq k :
+  m_qs (cookie_own_answer_gen echo eq rq k) =
+  if echo then (if eq then firstn 1 (rq_qs rq) else rq_qs rq) else [].
+Proof. unfold cookie_own_answer_gen. destruct k, echo; reflexivity. Qed.
+
+(* built from an empty builder the answer has no question section, whatever the request asked *)
+Lemma cookie_reject_no_question fx fq eq rq cfg k r : hint_ok cfg ->
+  cookie_reject_response_gen fx fq eq false rq cfg k = Ok r -> m_id r = rq_id rq /\ m_qs r = [].
+Proof.
+  intros Hk. unfold cookie_reject_response_gen.
+  destruct (hint_after_edns (rq_client rq) cfg) as [h| | |] eqn:E; try discriminate.
+  cbn [bind]. intros R; inversion R; subst r; clear R.
+  set (m := edns_post (is_some (rq_client rq)) (cookie_own_answer_gen false eq rq k)).
+  assert (Hm : mlen m <= 23).
+  { subst m. pose proof (edns_post_le (is_some (rq_client rq)) (cookie_own_answer_gen false eq rq k)) as L.
+    rewrite cookie_own_answer_len in L. lia. }
+  assert (H : mlen m <= 65535) by lia.
+  pose proof (trunc_max_ge fx (is_some (rq_client rq)) h (hint_ok_after _ _ _ Hk E)) as G.
+  destruct (udp_size_cases fx fq eq rq h m H) as [(_ & _ & _ & Q & _)|(A & _)]; [|lia].
+  split; [reflexivity|]. rewrite Q. subst m. rewrite edns_post_qs. apply cookie_own_answer_qs.
+Qed.
+
+(* built by mk_error_response it carries the request's id and (first) question *)
+Lemma cookie_reject_echo fx fq rq cfg k r : hint_ok cfg -> Forall wf_q (firstn 1 (rq_qs rq)) ->
+  cookie_reject_response_gen fx fq true true rq cfg k = Ok r ->
+  m_id r = rq_id rq /\ m_qs r = firstn 1 (rq_qs rq) /\ mlen r <= 282.
+Proof.
+  intros Hk Hq. unfold cookie_reject_response_gen.
+  destruct (hint_after_edns (rq_client rq) cfg) as [h| | |] eqn:E; try discriminate.
+  cbn [bind]. intros R; inversion R; subst r; clear R.
+  set (a := cookie_own_answer_gen true true rq k).
+  set (m := edns_post (is_some (rq_client rq)) a).
+  assert (Ha : mlen a <= 282).
+  { subst a. rewrite cookie_own_answer_len. apply error_response_small. exact Hq. }
+  assert (Hm : mlen m <= 282).
+  { subst m. assert (exists o, first_opt (m_ar a) = Some o) as (o & Eo) by (subst a; destruct k; eexists; reflexivity).
+    pose proof (edns_post_le_opt (is_some (rq_client rq)) a o Eo). lia. }
+  assert (H : mlen m <= 65535) by lia.
+  pose proof (trunc_max_ge fx (is_some (rq_client rq)) h (hint_ok_after _ _ _ Hk E)) as G.
+  destruct (udp_size_cases fx fq true rq h m H) as [(_ & L & _ & Q & _)|(A & _)]; [|lia].
+  split; [reflexivity|]. split; [|lia]. rewrite Q. subst m. rewrite edns_post_qs. subst a. apply cookie_own_answer_qs.
+Qed.
+
+Definition ck_request : request := mk_request 36892 1 [1] 1 None.
+Example cookie_reject_ex :
+  exists r, cookie_reject_response_gen true true true false ck_request (Some 1232) CkDeniedNoCookie = Ok r /\
+            mlen r = 12 /\ tc_set (m_b2 r) = true /\ m_b3 r = 5 /\ m_qs r = [] /\ rq_qs ck_request <> [].
+Proof. eexists. split; [vm_compute; reflexivity|]. repeat split; try (vm_compute; reflexivity). discriminate. Qed.
+
+(* ---- idle timeout and connection limit --------------------------------------------- *)
+
+(* an idle connection is open strictly before reset_at + timeout and closed from then on *)
+Lemma idle_open_spec reset_at timeout now :
+  idle_open reset_at timeout now = true <-> now < reset_at + timeout.
+Proof.
+  unfold idle_open, idle_expired. cbv [idle_expired_cmp_is_le].
+  destruct (N.leb_spec (reset_at + timeout) now); cbn [negb]; split; intros; try discriminate; try reflexivity; lia.
+Qed.
+
+(* a later reset never closes a connection earlier *)
+Lemma idle_reset_extends r1 r2 timeout now : r1 <= r2 ->
+  idle_open r1 timeout now = true -> idle_open r2 timeout now = true.
+Proof. rewrite !idle_open_spec. lia. Qed.
+
+Lemma at_connection_limit_spec num max : at_connection_limit num max = true <-> max <= num.
+Proof.
+  unfold at_connection_limit. cbv [conn_limit_cmp_is_ge].
+  destruct (N.leb_spec max num); split; intros; try discriminate; try reflexivity; lia.
+Qed.
+
+(* never more than max connections are served at once, and none is refused below the limit *)
+Lemma served_connections_spec max k : forall num, num <= max ->
+  N.of_nat (length (filter (fun b => b) (served_connections max num k))) + num <= max /\
+  (N.of_nat k + num <= max -> served_connections max num k = repeat true k).
+Proof.
+  induction k as [|k IH]; intros num H; [cbn; split; [lia|reflexivity]|].
+  cbn [served_connections]. destruct (at_connection_limit num max) eqn:E.
+  - apply at_connection_limit_spec in E. destruct (IH num H) as (A & B). cbn [filter]. split; [exact A|]. lia.
+  - assert (num < max). { destruct (N.leb_spec max num) as [L|L]; [apply at_connection_limit_spec in L; congruence|exact L]. }
+    destruct (IH (num + 1)) as (A & B); [lia|]. cbn [filter length]. split; [lia|].
+    intros F. cbn [repeat]. rewrite B by lia. reflexivity.
+Qed.
+Example served_ex : served_connections 2 0 4 = [true; true; false; false]. Proof. reflexivity. Qed.
